@@ -33,9 +33,36 @@ def formula_tables(f):
     return list(f[1]) if f[0] == "or" else [f[1], f[2]]
 
 
+def _bitmask(rows):
+    m = 0
+    for r in rows:
+        lo, hi = r[0], min(r[1], 0x10FFFF)
+        if lo <= hi:
+            m |= (1 << (hi + 1)) - (1 << lo)
+    return m
+
+
 def check_predicates(prog, rep, names):
+    """Exact, per code point: every path of the predicate fixes an interval set for cp (its own comparisons with
+    constants) and an answer for each table it searched; for all code points of the path whose real
+    memberships (folded tables) agree with those answers, the returned boolean must be the specification's
+    formula over the real memberships. Range shortcuts that agree with the tables are fine; the paths must
+    cover every code point."""
+    from .. import tables
+    from spec import tables_spec as ts
+
     world = OracleWorld(prog, {IN_TABLE: _in_table})
     m = ip.Machine(prog, world)
+    tabs, _errs = tables.all_tables(prog)
+    FULL = (1 << 0x110000) - 1
+    masks = {}
+
+    def mask(tname):
+        if tname not in masks:
+            rows = tabs.get(ts.C + tname)
+            masks[tname] = None if rows is None else _bitmask(rows)
+        return masks[tname]
+
     n = 0
     for name in names:
         f = ps.PREDICATES[name]
@@ -50,33 +77,55 @@ def check_predicates(prog, rep, names):
         except ip.AnalysisError as e:
             rep.analysis_error("L4", name, e, b.where())
             continue
-        tabs = formula_tables(f)
-        used = set()
-        okk = True
+        ftabs = formula_tables(f)
+        if any(mask(t) is None for t in ftabs):
+            rep.ob("L4", "%s = %s" % (name, _fmt(f)), False, "table(s) of the specification not folded: %s" % [t for t in ftabs if mask(t) is None], b.where(), key="L4|%s" % name)
+            continue
+        if f[0] == "or":
+            expect = 0
+            for t in f[1]:
+                expect |= mask(t)
+        else:
+            expect = mask(f[1]) & ~mask(f[2]) & FULL
         detail = ""
-        rows = []
+        covered = 0
         for o in outs:
             if o.kind != "return" or not isinstance(o.value, ip.I):
-                okk, detail = False, "path ends with %s %r" % (o.kind, o.value)
+                detail = "path ends with %s %r" % (o.kind, o.value)
                 break
-            asg = {k[1].split("::")[-1]: v for k, v in o.state.log if k[0] == "in"}
-            used |= set(asg)
-            rows.append((asg, bool(o.value.v)))
-        if okk:
-            extra = used - set(tabs)
-            missing = set(tabs) - used
-            if extra or missing:
-                okk, detail = False, "tables consulted %s; specification %s" % (sorted(used), sorted(tabs))
-        if okk:
-            # every total assignment must agree with the (unique) partial path it extends
-            for bits in itertools.product([False, True], repeat=len(tabs)):
-                member = dict(zip(tabs, bits))
-                got = [res for asg, res in rows if all(member[t] == v for t, v in asg.items())]
-                if len(got) != 1 or got[0] != formula_value(f, member):
-                    okk, detail = False, "for membership %s the predicate yields %s, the RFC category %s" % ({t: v for t, v in member.items() if v}, got, formula_value(f, member))
-                    break
+            other = [k for k, v in o.state.log if isinstance(k, tuple) and k[0] in ("ord", "bool")]
+            if other:
+                detail = "the result depends on %r, not only on cp and the tables" % (other[0],)
+                break
+            s_mask = 0
+            for lo, hi in ip.rng_get(o.state, ip.Sym("cp", "u32")):
+                lo, hi = max(lo, 0), min(hi, 0x10FFFF)
+                if lo <= hi:
+                    s_mask |= (1 << (hi + 1)) - (1 << lo)
+            bad_tab = None
+            for k, v in o.state.log:
+                if isinstance(k, tuple) and k[0] == "in":
+                    tname = k[1].split("::")[-1]
+                    tm = mask(tname)
+                    if tm is None:
+                        bad_tab = tname
+                        break
+                    s_mask &= tm if v else (~tm & FULL)
+            if bad_tab:
+                detail = "searches %s, which is not a folded table" % bad_tab
+                break
+            covered |= s_mask
+            res = bool(o.value.v)
+            wrong = s_mask & (~expect & FULL) if res else s_mask & expect
+            if wrong:
+                cp = (wrong & -wrong).bit_length() - 1
+                detail = "U+%04X: the predicate answers %s, the specification (%s over the folded tables) says %s" % (cp, res, _fmt(f), not res)
+                break
+        if not detail and covered != FULL:
+            missing = FULL & ~covered
+            detail = "no path covers U+%04X" % ((missing & -missing).bit_length() - 1)
         n += 1
-        rep.ob("L4", "%s = %s" % (name, _fmt(f)), okk, detail, b.where(), key="L4|%s" % name, sample=(n % 7 == 1))
+        rep.ob("L4", "%s = %s" % (name, _fmt(f)), not detail, detail, b.where(), key="L4|%s" % name, sample=(n % 7 == 1))
     return n
 
 
